@@ -96,6 +96,9 @@ class ScriptSock:
         if head[0] == 'e':
             self.script.pop(0)
             return b''
+        if head[0] == 'r':              # the peer resets the connection (an OS-level error of the CLIENT socket)
+            self.script.pop(0)
+            raise ConnectionResetError(104, 'Connection reset by peer')
         # silent
         self.script.pop(0)
         if self.timeout is None or self.timeout <= 0:
